@@ -5,7 +5,7 @@ claimed = {
  "C05": ("exploration", "6 C05", "Seeded search over message sequences, end conditions and fragmentations of real ReadMessage / conn.serve against a reference framer, plus an enumerated sweep of every split point, truncation offset and declared length 0..19 on short streams; sampling, not proof."),
  "C06": ("exploration", "6 C06", "Seeded histories of later reads (same/other connection, other goroutine, both sides of the 1 KiB pooled buffer), writes and forced GCs after a handler retained a message; every retained message is re-fingerprinted after every step. Sampling of histories with deterministic pool reuse."),
  "C07": ("exploration", "6 C07", "Seeded interleavings of 1-6 writer tasks on one real connection with mid-write stalls and write errors decided by the engine, checked against the recorded byte stream (whole, exactly once, per-writer and real-time order); retry half against scripted (accepted, error) outcome sequences and a small reference model, also through a real Conn."),
- "C08": ("exploration", "6 C08", "Seeded schedules of connects, fragment deliveries, handler releases and yield-point releases over Server.Serve with parked handlers; ENTER/EXIT history oracle per connection and a progress invariant at every quiescent point."),
+ "C08": ("exploration", "6 C08", "Seeded schedules of connects, fragment deliveries, handler releases and yield-point releases over Server.Serve with parked handlers; ENTER/EXIT history oracle per connection and a progress invariant at every quiescent point; an enumerated sweep of all 4 480 small schedules (2 connections x 2 messages x parked-handler choices); state-machine and Client variants where the library's own handlers block."),
  "C09": ("exploration", "6 C09", "Seeded registration tables, re-registrations and message mixes on live concurrently served connections, compared with a reference decision table, plus an enumerated sweep of every subset of the registrations that can compete for a message (2 688 tables x messages); the decision is input/config-quantified, the simulation supplies the live observation."),
  "C10": ("exploration", "6 C10", "Seeded peer histories (CERs of every kind, retransmissions, DWRs, application requests/answers, CEA write faults) against a state machine with name/index/catch-all registrations and refused built-in keys, judged by a reference gate; client side through scripted servers that pipeline application messages around the CEA, and one Client holding two connections at once; thorough enumerates all server histories up to length 4 over 9 item kinds."),
  "C11": ("fault_enumeration", "6 C11", "Enumerated sweep of every presence combination x every application-entry sequence up to length 2 (quick) / 3 (thorough) over 24 entry variants, plus seeded random CERs with CEA write faults and IPv4/IPv6/loopback endpoints; an independent acceptance predicate over the generated spec and an application table parsed from the dictionary XML decides CEA, metadata and close."),
